@@ -58,7 +58,11 @@ CFG = {
         "RESULT then the receiver re-read, an integer offered to the RECEIVER then the result re-read, further integers offered "
         "to the result, its forward / reverse iteration (non-trivial: receiver neither empty nor full); revs = BigU32s.Reverse / "
         "U32BitTips.Reverse of 0..4 blocks: result (Start, words) per element, then every result element modified and the "
-        "receivers re-read; distinct = distinct Coq case term (inputs and observations) plus threshold / goroutine"
+        "receivers re-read; dense = BigU32s / U32BitTips of 1..4 FULL or nearly full blocks (1024, 1023, 1022, 1021 members; built by "
+        "Reverse, by the 128-byte payload or by 1024 sets) at Starts 0, 2^22-1, 2^22, 2^30, max, with counts 1023..5000 and "
+        "total-1 / total / total+1, forward and reverse, each answer in compact form (count, first 3, last 3, sum, "
+        "position-weighted sum) compared with the compact form of the model's answer; "
+        "distinct = distinct Coq case term (inputs and observations) plus threshold / goroutine"
     ),
     "trusted": [
         "per-word traversal Bit64.IterAs*/RIterAs* abstracted to 'first n set positions in the direction' (proved for the forward direction in C08's Bit64.v; observed here through every iteration result)",
